@@ -2,8 +2,8 @@
 """tools/keep_seed.py ID  — after tools/try_seed.sh confirmed a seeded change, copy it to /verif/seeded/ID/ and
 record in meta.json what was run and what each check reported."""
 import json, os, re, shutil, sys
-sid = sys.argv[1]
-src = "/tmp/seed_%s_out" % sid
+sid = sys.argv[1]                      # tag: C06, or C06b for a second seeded change of the same property
+src = sys.argv[2] if len(sys.argv) > 2 else "/tmp/seed_%s_out" % sid
 log = open("/tmp/seedlogs/%s.log" % sid).read()
 dst = "/verif/seeded/%s" % sid
 shutil.rmtree(dst, ignore_errors=True)
